@@ -159,6 +159,15 @@ def gen_plan(tape, cfg):
                 o["goals"] = [dict(base, soft=base["soft"] + extra, real_w=False,
                                    soft_extra=extra)]
                 o["strategy"] = ops[j]["strategy"]
+            prevbv = [j for j, po in enumerate(ops) if po["op"] == "optimize" and po["mode"] == "single"
+                      and po["goals"][0]["kind"] in ("min", "max") and flavour == "bv" and "reuse" not in po and "flip" not in po]
+            if "reuse" not in o and prevbv and mode == "single" and tape.chance(1, 3, "flip.goal"):
+                # the client keeps a min/max goal object over a bit-vector term, flips its public
+                # `signed` flag and optimises the same object again
+                j = tape.choice(prevbv, "flip.which")
+                base = ops[j]["goals"][0]
+                o["flip"] = j
+                o["goals"] = [dict(base, signed=not base["signed"])]
             ops.append(o)
     faults = {}
     if tape.chance(1, 6, "faulty?"):
@@ -356,6 +365,7 @@ def execute(plan, tape):
     trace = []
     nontrivial = False
     faulted = False
+    flip_objs = {}
 
     def probe(n):
         probes[n] = probes.get(n, 0) + 1
@@ -473,8 +483,15 @@ def execute(plan, tape):
                 goal_bps[o["reuse"]] = list(goals[0]["soft"])     # mirrors what the object now holds
                 pgoals = [g_obj]
                 probe("maxsmt_goal_object_reused")
+            elif o.get("flip") is not None and o["flip"] in flip_objs:
+                g_obj = flip_objs[o["flip"]]
+                g_obj.signed = goals[0]["signed"]
+                pgoals = [g_obj]
+                probe("goal_object_reused_with_flipped_signedness")
             else:
                 pgoals = [_build_goal(g, env) for g in goals]
+            if goals and mode == "single" and goals[0]["kind"] in ("min", "max") and o.get("flip") is None:
+                flip_objs[i] = pgoals[0]
             if goals and goals[0]["kind"] == "maxsmt" and mode in ("single", "boxed") and reuse_from is None:
                 goal_objs[i] = pgoals[0]
                 goal_bps[i] = list(goals[0]["soft"])
